@@ -103,7 +103,10 @@ def r1(R, tus):
     R.rule("C12.R1", "merge() combines exactly the fields add_pixel() accumulates, field by field with the same operator class; "
                      "blobproperties seeds min fields above and max fields below every pixel value; compute_moments reads only accumulated fields")
     ap = cfront.find_func(tus, "add_pixel", BL)
-    mg = cfront.find_func(tus, "merge", BL)
+    mg0 = cfront.find_func(tus, "merge", BL)
+    # a run of fields handled by a loop over consecutive enumerators ( for (i = s_1; i <= s_foI; i++) b1[i] += b2[i]; ) reads field by field
+    mg = cfront.unroll_const_loops(mg0, maxiter=30)
+    ap = cfront.unroll_const_loops(ap, maxiter=30)
     a = classify(ap, ap.params[0].name)
     m = classify(mg, mg.params[0].name)
     R.shape(len(a) >= 22, "C12.R1", BL, "add_pixel", "the 22 accumulated fields (found %d)" % len(a))
@@ -132,8 +135,21 @@ def r1(R, tus):
                 if s2.k == "expr" and s2.e.k == "asg":
                     R.check(field_of(s2.e.a[0], b1) == field_of(s2.e.a[1], b2), "C12.R1", BL, s2.line, "merge", estr_top(s2.e), "max-pixel field copied from a different field")
     # merged-away peak is emptied
-    z = [st for st in swalk(mg.body) if st.k == "for"]
+    z = [st for st in swalk(mg0.body) if st.k == "for"]
     ok = False
+    for st in swalk(mg0.body):
+        # memset(b2, 0, NPROPERTY * sizeof(double)) : all-bits-zero is 0.0
+        if st.k == "expr" and st.e.k == "call" and st.e.name == "memset" and len(st.e.a) == 3:
+            a0 = st.e.a[0]
+            while a0.k == "cast":
+                a0 = a0.a[0]
+            nbytes = st.e.a[2]
+            while nbytes.k == "cast":
+                nbytes = nbytes.a[0]
+            whole = nbytes.k == "bin" and nbytes.op == "*" and any(x_.k == "int" and x_.name == "NPROPERTY" for x_ in nbytes.a) \
+                and any(x_.k == "sizeof" and "double" in (x_.name or "") for y_ in nbytes.a for x_ in ewalk(y_))
+            if a0.k == "var" and a0.name == mg0.params[1].name and cfront.is_zero_lit(st.e.a[1]) and whole:
+                ok = True
     for lp in z:
         from engine import omp
         h = omp.loop_header(lp)
@@ -285,8 +301,16 @@ def r2(R):
         else:
             R.check(not (c.endswith("d") or c.endswith(".0f")), "C12.R2", LI, op.lineno, "labelimage", "float column %s uses %s" % (t, c), "a real-valued column is printed as an integer: precision lost")
     R.check(fmt.endswith("\n") and class_string(cls, "titles").endswith("\n"), "C12.R2", LI, op.lineno, "labelimage", "rows and title line newline-terminated", "missing newline")
-    u = ast.unparse(op)
-    R.check("if %s[s_1] < 0.1" % rowvar in u and "continue" in u, "C12.R2", LI, op.lineno, "labelimage.outputpeaks", "rows emptied by a merge are skipped", "merged-away (zeroed) rows would be printed as peaks")
+    skip = False
+    for i_ in ast.walk(op):
+        if not isinstance(i_, ast.If):
+            continue
+        cn = pyfacts.cmp_norm(i_.test)
+        if cn == ("Lt", "%s[s_1]" % rowvar, "0.1") and any(isinstance(x, ast.Continue) for x in i_.body):
+            skip = True          # if row[s_1] < 0.1: continue      ( also  0.1 > row[s_1] )
+        if cn == ("LtE", "0.1", "%s[s_1]" % rowvar) and any(x is tup[0] for b_ in i_.body for x in ast.walk(b_)) and not i_.orelse:
+            skip = True          # if row[s_1] >= 0.1: <write the row>
+    R.check(skip, "C12.R2", LI, op.lineno, "labelimage.outputpeaks", "rows emptied by a merge are skipped", "merged-away (zeroed) rows would be printed as peaks")
 
 
 # --------------------------------------------------------------------------------------------------
@@ -311,8 +335,16 @@ def r3(R):
             "images swapped twice on one path")
     for tgt, vals in (("self.lastnp", {"self.npk"}), ("self.lastres", {"self.res", "self.res[:self.npk]", "None"})):
         asg = [s for s in ast.walk(fn) if isinstance(s, ast.Assign) and src(s.targets[0]) == tgt]
-        R.check(asg and all(src(s.value) in vals for s in asg), "C12.R3", LI, fn.lineno, "labelimage.mergelast", "%s := %s" % (tgt, sorted(set(src(s.value) for s in asg))),
+
+        def alts(v):
+            return alts(v.body) + alts(v.orelse) if isinstance(v, ast.IfExp) else [src(v)]
+        R.check(asg and all(t_ in vals for s in asg for t_ in alts(s.value)), "C12.R3", LI, fn.lineno, "labelimage.mergelast", "%s := %s" % (tgt, sorted(set(src(s.value) for s in asg))),
                 "the previous-frame state is not taken from the current frame")
+        for s in asg:
+            if isinstance(s.value, ast.IfExp) and tgt == "self.lastres":
+                cn = pyfacts.cmp_norm(s.value.test)
+                R.check((cn == ("Lt", "0", "self.npk") and src(s.value.orelse) == "None") or (cn == ("LtE", "self.npk", "0") and src(s.value.body) == "None"),
+                        "C12.R3", LI, s.lineno, "labelimage.mergelast", "lastres is None exactly when the frame has no peaks", "the empty-frame case of lastres changed")
         g2 = cfg.g.copy()
         for s in asg:
             g2.remove_node(cfg.node_of(s).id)
@@ -335,8 +367,18 @@ def r3(R):
             and bm[0].lineno > ov[0].lineno, "C12.R3", LI, fn.lineno, "labelimage.mergelast", "closed peaks: blob_moments then outputpeaks on lastres[:lastnp], after the merge",
             "peaks of the previous frame are written before they are merged/finished")
     fin = m.ifunc("labelimage.finalise", keep=("outputpeaks",))
-    u = ast.unparse(fin)
-    R.check("self.onlast = 1" in u and "if self.lastres is not None" in u and "cImageD11.blob_moments(self.lastres)" in u and "self.outputpeaks(self.lastres)" in u, "C12.R3", LI, fin.lineno,
+    fcfg = pyfacts.PyCFG(fin)
+    bmf = [c for c in ast.walk(fin) if isinstance(c, ast.Call) and pyfacts.dotted(c.func) == "cImageD11.blob_moments" and [src(a_) for a_ in c.args] == ["self.lastres"]]
+    opf = [c for c in ast.walk(fin) if isinstance(c, ast.Call) and pyfacts.dotted(c.func) == "self.outputpeaks" and [src(a_) for a_ in c.args] == ["self.lastres"]]
+    onl = [a_ for a_ in ast.walk(fin) if isinstance(a_, ast.Assign) and src(a_.targets[0]) == "self.onlast" and src(a_.value) == "1"]
+    okf = len(bmf) == 1 and len(opf) == 1 and len(onl) == 1
+    if okf:
+        nb, no, nl = fcfg.node_of(pyfacts.containing_stmt(bmf[0])), fcfg.node_of(pyfacts.containing_stmt(opf[0])), fcfg.node_of(onl[0])
+        okf = fcfg.dominates(nb, no) and fcfg.dominates(nl, no)
+        # written exactly when there is something to write: every path with lastres not None reaches the two calls
+        gs = [pyfacts.cmp_norm(t_) + (pol,) for t_, pol in fcfg.guards(no) if pyfacts.cmp_norm(t_) is not None]
+        okf = okf and all((g_[0] == "IsNot" and g_[1:3] == ("self.lastres", "None") and g_[3]) or (g_[0] == "Is" and g_[1:3] == ("self.lastres", "None") and not g_[3]) for g_ in gs)
+    R.check(okf, "C12.R3", LI, fin.lineno,
             "labelimage.finalise", "finalise flushes the last frame's peaks", "the peaks of the last frame are never written")
 
 
@@ -375,8 +417,11 @@ def r4(R, tus):
             continue
         body = lp.body.body if lp.body.k == "block" else [lp.body]
         ex = [s.e for s in body if s.k == "expr"]
-        if len(ex) == 2 and ex[0].k == "asg" and ex[0].op == "=" and ex[1].k == "asg" and estr(ex[1].a[1]) in ("0", "0.0") and estr(ex[0].a[1]) == estr(ex[1].a[0]) \
-                and cfront.base_var(ex[0].a[0]).name == res2 and "T[i]" in estr(ex[0].a[0]) and "link[i]" in estr(ex[0].a[1]):
+        outer = [o for o in swalk(f.body) if o.k == "for" and o is not lp and any(x_ is lp for x_ in swalk(o.body))]
+        ldefs = cfront.scalar_defs(f, within=outer[-1]) if outer else {}      # dest = T[i]; src = link[i];  read through
+        rs_ = lambda e_: estr(cfront.esubst(e_, ldefs))
+        if len(ex) == 2 and ex[0].k == "asg" and ex[0].op == "=" and ex[1].k == "asg" and estr(ex[1].a[1]) in ("0", "0.0") and rs_(ex[0].a[1]) == rs_(ex[1].a[0]) \
+                and cfront.base_var(ex[0].a[0]).name == res2 and "T[i]" in rs_(ex[0].a[0]) and "link[i]" in rs_(ex[0].a[1]):
             moved = True
     R.check(moved, "C12.R4", CP, f.line, "bloboverlaps", "compaction: res2[T[i]-1][:] = res2[link[i]-1][:]; source zeroed, over all NPROPERTY fields",
             "surviving peaks are not moved to their compacted slot by a plain full-row copy")
